@@ -146,7 +146,7 @@ def r3_identity(ctx):
         else:
             # close task: captured sub_id = uniq_sub.sub_id.clone() and method = notif_method_name of the same registration
             ok_s = bool(ls) and all(l.kind == "agg" and l.detail.get("adt", "").endswith("SubscriptionKey") or "uniq_sub" in " ".join(l.chain) or (l.kind == "call" and re.search(r"IdProvider::next_id$", l.detail["callee"] or "")) for l in ls)
-            ok_m = bool(lm) and all(l.kind == "param" and l.detail.get("name") == "notif_method_name" for l in lm)
+            ok_m = bool(lm) and all(l.kind == "param" and l.detail["idx"] == 3 and re.search(r"RpcModule::<Context>::register_subscription(_raw)?$", l.detail["fn"]) for l in lm)
         R.check(ok_s, "C04.R3", k + ":sub-id", "the notification carries the subscription's own id", "a notification is built with a subscription id that is not the sink's own: %s" % [flow.leaf_str(l) for l in ls], where(c))
         R.check(ok_m, "C04.R3", k + ":method", "the notification carries the subscription's own notification method", "a notification is built with a method name that is not the subscription's own: %s" % [flow.leaf_str(l) for l in lm], where(c))
     R.floor("C04.R3", n, 5, "notification builder sites")
@@ -158,7 +158,7 @@ def r3_identity(ctx):
                     if st["s"] == "assign" and st["rv"]["k"] == "agg" and st["rv"].get("adt", "").endswith("PendingSubscriptionSink"):
                         rv = st["rv"]
                         lm = tr.origins(b, rv["ops"][rv["fields"].index("method")])
-                        okm = bool(lm) and all(l.kind == "param" and l.detail.get("name") == "notif_method_name" for l in lm)
+                        okm = bool(lm) and all(l.kind == "param" and l.detail["idx"] == 3 and re.search(r"RpcModule::<Context>::register_subscription(_raw)?$", l.detail["fn"]) for l in lm)
                         R.check(okm, "C04.R3", fkey(b) + ":pending-method", "the pending sink gets the registration's notification method", "the pending sink's method is %s" % [flow.leaf_str(l) for l in lm], "%s:%d" % (b.file, st["sp"][0]))
                         li = tr.origins(b, rv["ops"][rv["fields"].index("uniq_sub")])
                         oki = any(l.kind == "agg" and l.detail.get("adt", "").endswith("SubscriptionKey") for l in li)
@@ -238,7 +238,7 @@ def r5_unsubscribe_key(ctx):
                 ops = dict(zip(l.detail["fields"], l.detail["ops"]))
                 lc = tr.origins(cb, ops["conn_id"])
                 ls = tr.origins(cb, ops["sub_id"])
-                R.check(bool(lc) and all(x.kind == "param" and x.detail.get("name") == "conn_id" for x in lc), "C04.R5", "unsubscribe:key-conn", "the key's connection is the caller's", "unsubscribe removes a key of connection %s" % [flow.leaf_str(x) for x in lc], where(r))
+                R.check(bool(lc) and all(x.kind == "param" and (x.detail.get("ty") or "").endswith("ConnectionId") for x in lc), "C04.R5", "unsubscribe:key-conn", "the key's connection is the caller's", "unsubscribe removes a key of connection %s" % [flow.leaf_str(x) for x in lc], where(r))
                 R.check(any(x.kind == "call" and re.search(r"Params::<'.*>::one$", x.detail["callee"] or "") for x in ls), "C04.R5", "unsubscribe:key-sub-id", "the key's id is the one parsed from the params", "unsubscribe removes id %s" % [flow.leaf_str(x) for x in ls], where(r))
         R.check(any(l.kind == "agg" and l.detail.get("adt", "").endswith("SubscriptionKey") for l in lv), "C04.R5", "unsubscribe:key-built", "the key is (conn_id, sub_id)", "the removal key is %s" % [flow.leaf_str(l) for l in lv], where(r))
 
